@@ -267,6 +267,7 @@ def case_history(ctx, case):
 
     compare()
     probes()
+    look_p = rng.choice([1.0, 1.0, 0.5, 0.2])
     for _ in range(rng.randint(15, 30)):
         x = rng.random()
         if rng.random() < 0.04:
@@ -340,6 +341,9 @@ def case_history(ctx, case):
             trace.append(('remove', i))
         else:
             trace.append(('lookup',))
+        if rng.random() >= look_p:
+            ctx.count('operations_after_which_nobody_looked')       # several changes pile up between two looks at the environment
+            continue
         compare()
         probes()
     # a join that fails HALF-WAY (one of the newcomer's components was registered by hand before, so its registration is refused with
